@@ -3,9 +3,10 @@
 import json, os, re, sys
 HERE = os.path.dirname(os.path.dirname(os.path.abspath(__file__)))
 NOTES = json.load(open(os.path.join(HERE, "seeded", "notes.json"))) if os.path.exists(os.path.join(HERE, "seeded", "notes.json")) else {}
+ONLY = set(sys.argv[1:])   # names to (re)write; none given = all
 for name in sorted(os.listdir(os.path.join(HERE, "seeded"))):
     d = os.path.join(HERE, "seeded", name)
-    if not os.path.isdir(d):
+    if not os.path.isdir(d) or (ONLY and name not in ONLY):
         continue
     mp = os.path.join(d, "meta.json")
     meta = json.load(open(mp)) if os.path.exists(mp) else {}
@@ -15,16 +16,18 @@ for name in sorted(os.listdir(os.path.join(HERE, "seeded"))):
         "demo_fails_with_change": bool(re.search(r"demo with the change.*?exit=[1-9]", log, re.S)),
         "demo_passes_without_change": bool(re.search(r"demo without the change.*?exit=0", log, re.S)),
         "ran": ["/tmp/wt/run_tests.sh <scratch worktree with the change>", "demo.py with and without the change",
+                "tools/try_patch.sh <name> seeded/<name>/patch.diff <ids>  (scratch worktree with the change, VERIF_REPO)"
+                if "scratch copy" in log else
                 "git -C /repo apply patch.diff; ./check <id> --tier quick; git -C /repo checkout -- ."],
     }
     first, after = {}, {}
     parts = re.split(r"^== re-check after strengthening.*$", log, flags=re.M)
-    for m in re.finditer(r"^check (C\d+) rc=(\d)(.*)$", parts[0], re.M):
+    for m in re.finditer(r"^(?:check|[\w.-]+) (C\d+) rc=(\d)(.*)$", parts[0], re.M):
         first[m.group(1)] = {"rc": int(m.group(2)), "line": m.group(3).strip()}
     for m in re.finditer(r"^after strengthening: check (C\d+) rc=(\d)(.*)$", parts[0], re.M):
         after[m.group(1)] = {"rc": int(m.group(2)), "line": m.group(3).strip()}
     for part in parts[1:]:
-        for m in re.finditer(r"^check (C\d+) rc=(\d)(.*)$", part, re.M):
+        for m in re.finditer(r"^(?:check|[\w.-]+) (C\d+) rc=(\d)(.*)$", part, re.M):
             after[m.group(1)] = {"rc": int(m.group(2)), "line": m.group(3).strip()}
     meta["checks_first_run"] = first
     if after:
